@@ -70,21 +70,16 @@ def oracle(policy, actions, recs, snap):
 def join_stuck(key, policy, actions, recs, snap):
     """Progress clause (property: "members that are slow ... are waited for", i.e. join waits
     *for members* and for nothing else): at the end of a trace in which no other task called
-    next_done() in competition with the joiner and the joining task was not cancelled while it was
-    already awaiting the members it had cancelled (F11), if every task ever placed in the group
+    next_done() and had to wait there (Lean: `NoParking`) and the joining task was not cancelled
+    while it was already awaiting the members it had cancelled (F11), if every task ever placed in the group
     has finished then the join()/__aexit__ task has finished too.  Returns (applies, violations)."""
     if snap.get('join_state') is None or snap.get('joiner_done') is None:
         return False, []
-    # a next_done() caller competes with the joiner if it had to wait, or called while the join
-    # was running; callers served at once before join() started or after it returned do not
-    active = False
+    # a next_done() caller competes with the joiner if it had to wait on the group's semaphore
+    # (F12 needs such a caller); callers that were served at once do not
     for a, rec in zip(actions, recs):
-        if a[0] in ('J', 'E'):
-            active = True
-        if a[0] == 'N' and (active or any(o.startswith('nb') for o in rec['obs'])):
+        if any(o.startswith('nb') for o in rec['obs']):
             return False, []
-        if any(o.startswith('jx') for o in rec['obs']):
-            active = False
         if a[0] == 'K' and '_cancel_tasks' in (rec.get('pre_wait') or []):
             return False, []
     if not all(st == 'done' for st in snap['status'].values()):
